@@ -106,7 +106,11 @@ def syntactic_sinks(kind):
     add("print", "print(c)")
     add("println", "println(c)")
     add("interpolate", "s('{c}')")
+    add("interpolate-spec", "[s('{c#40}'), s('{c#-40}'), s('{c#3}'), "
+        "s('{c#.2}'), s('{c#x}'), s('{c#05}')]")
     add("sprintf", "sprintf('{0}', c)")
+    add("sprintf-spec", "[sprintf('{0#40}', c), sprintf('{0#-3}', c), "
+        "sprintf('{0#.1}', c)]")
     add("list", "list(c)")
     add("set", "set(c)")
     add("map", "map(c)")
